@@ -280,7 +280,7 @@ def exhaustive(ctx):
 
 def check(ctx):
     r = ctx.rng
-    cases = [rand_history(r) for _ in range(6000 if ctx.thorough else 1500)] + exhaustive(ctx)
+    cases = [rand_history(r) for _ in range(8000 if ctx.thorough else 3000)] + exhaustive(ctx)
     outs = {}
 
     def impl(c):
